@@ -10,7 +10,9 @@ BUDGET = {"quick": 15, "thorough": 150}
 EXHAUSTIVE = {"quick": False, "thorough": True}
 RULE = ("EX = every list (order matters, repetition allowed) of <= L paths drawn from a pool of 12 synthetic paths "
         "between one node pair with ties on hop count, duration and arrival (quick L=2, thorough L=4); SYN = random "
-        "synthetic lists (single-hop paths, ties, duplicates, shuffles, lists and tuples); REAL = the per-key lists "
+        "synthetic lists (single-hop paths, ties, duplicates, shuffles, lists and tuples; time scales: small, "
+        "hundreds, nanosecond epochs beyond 2**53, numpy integers; the same list annotated again after a path was "
+        "edited in place); REAL = the per-key lists "
         "returned by time_respecting_paths on random temporal graphs. Oracle: direct recomputation of each "
         "criterion (fewest hops, minimal last-first time, earliest arrival, lexicographic combinations) compared "
         "as sets of paths; every output path is an element of the input; the five keys exist; path_length == hop "
@@ -19,7 +21,8 @@ RULE = ("EX = every list (order matters, repetition allowed) of <= L paths drawn
 MIN = {"quick": {"annotate==recomputed": 15000, "outputs-are-inputs": 15000, "path_length/duration": 15000},
        "thorough": {"annotate==recomputed": 400000, "outputs-are-inputs": 400000, "path_length/duration": 400000}}
 REQUIRED_CELLS = {t: ("input:real", "input:synthetic", "input:exhaustive", "tie:shortest", "tie:fastest",
-                      "tie:foremost") for t in ("quick", "thorough")}
+                      "tie:foremost", "times:hundreds", "times:huge", "times:numpy", "input:edited-in-place")
+                  for t in ("quick", "thorough")}
 
 # paths between nodes 0 and 9: (hops, first time, last time) chosen to collide on every criterion
 POOL = [
@@ -113,20 +116,41 @@ def run(ctx, dn):
         else:
             cnt = rng.randint(1, 7)
             pl = []
+            # time scales: small, hundreds (durations beyond the small-int cache), nanosecond epochs beyond 2**53
+            # (a few ns apart), numpy integers
+            scale = rng.choice(("small", "small", "hundreds", "huge", "numpy"))
+            ctx.cell("times:" + scale)
+            base = {"small": 0, "hundreds": 1000, "huge": 2 ** 60, "numpy": 0}[scale]
+            step = {"small": 3, "hundreds": 400, "huge": 3, "numpy": 300}[scale]
             for _ in range(cnt):
                 if pl and rng.random() < 0.2:
                     pl.append(rng.choice(pl))
                     continue
                 hops = rng.randint(1, 4)
-                t = rng.randint(0, 4)
+                t = base + rng.randint(0, 4) * (step if scale == "hundreds" else 1)
                 p, a = [], 0
                 for h in range(hops):
                     b = 9 if h == hops - 1 else rng.randint(1, 8)
-                    p.append((a, b, t))
+                    tt = t
+                    if scale == "numpy":
+                        import numpy as np
+                        tt = np.int64(t)
+                    p.append((a, b, tt))
                     a = b
-                    t += rng.randint(1, 3)
+                    t += rng.randint(1, step)
                 pl.append(tuple(p) if rng.random() < 0.7 else list(p))
             check(ctx, al, pl, "synthetic")
+            # the same list object annotated again after one of its paths was edited in place
+            mutable = [i for i, q in enumerate(pl) if isinstance(q, list)]
+            if mutable and rng.random() < 0.5:
+                i = rng.choice(mutable)
+                last = pl[i][-1]
+                pl[i].append((last[1], 9, last[2] + rng.randint(1, step)))
+                if rng.random() < 0.5 and len(pl[i]) > 2:
+                    del pl[i][0]
+                    pl[i][0] = (0,) + tuple(pl[i][0][1:])
+                ctx.cell("input:edited-in-place")
+                check(ctx, al, pl, "synthetic")
         if k < 2:
             ctx.sample(ctx.case)
         k += 1
